@@ -40,6 +40,197 @@ def enc_table(body, what):
     lo, hi = num(m.group(3)), num(m.group(5)) + (1 if m.group(4) else 0)
     return esc, lo, hi, m.group(2), m.group(6), m.group(7)
 
+
+# ---------------------------------------------------------------- per-type presentation schemas
+
+W_U8, W_U16, W_U32, W_NAME, W_CSTR, W_B16, W_B64, W_WORD, W_CSTRS = 1, 2, 3, 4, 5, 6, 7, 8, 9
+R_U8, R_U16, R_U32, R_NAME, R_CSTR, R_B16REST, R_B64REST, R_OCTETS, R_CSTRS, R_TIMESTAMP, R_ENUM8, R_RTYPE = 1, 2, 3, 4, 5, 6, 7, 8, 9, 10, 13, 14
+
+REGULAR = [  # struct, file
+    ("A", "src/rdata/rfc1035/a.rs"), ("Aaaa", "src/rdata/aaaa.rs"), ("Soa", "src/rdata/rfc1035/soa.rs"),
+    ("Hinfo", "src/rdata/rfc1035/hinfo.rs"), ("Minfo", "src/rdata/rfc1035/minfo.rs"), ("Mx", "src/rdata/rfc1035/mx.rs"),
+    ("Txt", "src/rdata/rfc1035/txt.rs"), ("Rp", "src/rdata/rp.rs"), ("Srv", "src/rdata/srv.rs"), ("Naptr", "src/rdata/naptr.rs"),
+    ("Ds", "src/rdata/dnssec.rs"), ("Dnskey", "src/rdata/dnssec.rs"), ("Rrsig", "src/rdata/dnssec.rs"),
+    ("Cds", "src/rdata/cds.rs"), ("Cdnskey", "src/rdata/cds.rs"), ("Sshfp", "src/rdata/sshfp.rs"), ("Tlsa", "src/rdata/tlsa.rs"),
+    ("Zonemd", "src/rdata/zonemd.rs"), ("Openpgpkey", "src/rdata/openpgpkey.rs"),
+]
+
+def call_args(body, start):
+    """body[start] == '(' ; returns (argument text, index after the closing paren)"""
+    depth, i = 0, start
+    while i < len(body):
+        c = body[i]
+        if c == '"':
+            i += 1
+            while body[i] != '"':
+                i += 2 if body[i] == "\\" else 1
+        elif c == "(":
+            depth += 1
+        elif c == ")":
+            depth -= 1
+            if depth == 0:
+                return body[start + 1:i], i + 1
+        i += 1
+    raise GenError("unbalanced call")
+
+def decimal_enums():
+    """iana types whose presentation is a decimal number (+ a comment in the multi-line form)"""
+    out = {}
+    d = os.path.join(REPO, "src/base/iana")
+    for fn in sorted(os.listdir(d)):
+        if not fn.endswith(".rs") or fn == "macros.rs":
+            continue
+        src = strip_comments(read("src/base/iana/" + fn))
+        for m in re.finditer(r"int_enum_zonefile_fmt_decimal!\(\s*(\w+)\s*,", src):
+            t = m.group(1)
+            w = re.search(r"int_enum_str_decimal!\(\s*%s\s*,\s*(u8|u16)\s*\)" % t, src)
+            if not w:
+                raise GenError("decimal enum %s has no int_enum_str_decimal" % t)
+            out[t] = w.group(1)
+    mac = strip_comments(read("src/base/iana/macros.rs"))
+    body = mac[mac.index("macro_rules! int_enum_zonefile_fmt_decimal"):mac.index("macro_rules! int_enum_zonefile_fmt_with_decimal")]
+    one(r"p\.write_token\(self\.to_int\(\)\)\?;\s*if let Some\(mnemonic\) = self\.to_mnemonic_str\(\)\s*\{\s*p\.write_comment\(format_args!", body, "decimal enum ZonefileFmt")
+    body = mac[mac.index("macro_rules! int_enum_str_decimal"):mac.index("macro_rules! int_enum_str_with_decimal")]
+    one(r"fn from_str\(s: &str\)[^{]*\{\s*s\.parse\(\)\.map\(\$ianatype::from_int\)", body, "decimal enum FromStr")
+    one(r'write!\(f,\s*"\{\}",\s*self\.to_int\(\)\)', body, "decimal enum Display")
+    return out
+
+def struct_fields(src, name):
+    if re.search(r"pub struct %s\s*(?:<[^>{(]*>)?\s*\(" % name, src):
+        return {}
+    m = one(r"pub struct %s\s*(?:<[^>{]*>)?\s*\{" % name, src, "struct " + name)
+    body = block_from(src, m.end() - 1)
+    body = re.sub(r"#\[[^\]]*\]", "", re.sub(r"#\[cfg_attr\((?:[^()]|\([^()]*\))*\)\]", "", body))
+    return dict((f, t.strip()) for f, t in re.findall(r"(?:pub(?:\([a-z]+\))?\s+)?(\w+)\s*:\s*([^,\n]+),", body))
+
+def enclosing_impl(src, pos):
+    i = src.rfind("\nimpl", 0, pos)
+    m = re.match(r"\nimpl\s*(?:<[^{]*?>)?\s*(\w+)", src[i:])
+    return m.group(1) if m else None
+
+def uint_kind(t):
+    return {"u8": W_U8, "u16": W_U16, "u32": W_U32}.get(t)
+
+def type_schema(name, path, enums, codes):
+    src = strip_comments(read(path))
+    fields = struct_fields(src, name)
+    # ---- writer
+    hdr = [m for m in re.finditer(r"impl\s*<[^{]*?ZonefileFmt\s+for\s+%s\s*<|impl\s+ZonefileFmt\s+for\s+%s\s*\{" % (name, name), src)]
+    if len(hdr) != 1:
+        raise GenError("ZonefileFmt for %s: %d impls" % (name, len(hdr)))
+    body = fn_body(src, "fmt", after=hdr[0].group(0))
+    block = bool(re.search(r"p\.block\(\|p\|", body))
+    wf = []   # [kind, cflag, ctext]
+    if re.search(r"for\s+\w+\s+in\s+self\.iter_charstrs\(\)\s*\{\s*p\.write_token\(\w+\.display_quoted\(\)\)\?;\s*\}", body):
+        wf.append([W_CSTRS, 0, ""])
+    else:
+        for m in re.finditer(r"p\.(write_token|write_show|write_comment)\(", body):
+            raw, _ = call_args(body, m.end() - 1)
+            raw = raw.strip()
+            arg = re.sub(r"\s+", "", raw)
+            what = m.group(1)
+            if what == "write_comment":
+                if not wf or wf[-1][1] != 0:
+                    raise GenError("%s: comment without a token / second comment" % name)
+                lit = re.fullmatch(r'"([^"\\]*)"', raw)
+                wf[-1][1], wf[-1][2] = (1, lit.group(1)) if lit else (2, "")
+                continue
+            f = re.fullmatch(r"&?self\.(\w+)", arg)
+            if what == "write_show":
+                if not f:
+                    raise GenError("%s: write_show(%s)" % (name, arg))
+                t = fields.get(f.group(1))
+                if t in ("Ttl", "Timestamp"):
+                    wf.append([W_U32, 0, ""])
+                elif t in enums:
+                    wf.append([W_U8 if enums[t] == "u8" else W_U16, 2, ""])
+                elif t == "Rtype":
+                    wf.append([W_WORD, 0, ""])
+                else:
+                    raise GenError("%s: write_show of field type %r" % (name, t))
+                continue
+            if re.fullmatch(r"self\.\w+\.fmt_with_dot\(\)", arg):
+                wf.append([W_NAME, 0, ""])
+            elif re.fullmatch(r"self\.\w+\.display_quoted\(\)", arg):
+                wf.append([W_CSTR, 0, ""])
+            elif re.fullmatch(r"base16::encode_display\(&self\.\w+\)", arg):
+                wf.append([W_B16, 0, ""])
+            elif re.fullmatch(r"base64::encode_display\(&self\.\w+\)", arg):
+                wf.append([W_B64, 0, ""])
+            elif f:
+                t = fields.get(f.group(1))
+                if uint_kind(t):
+                    wf.append([uint_kind(t), 0, ""])
+                elif t == "Serial":
+                    wf.append([W_U32, 0, ""])
+                elif t in ("Ipv4Addr", "Ipv6Addr"):
+                    wf.append([W_WORD, 0, ""])
+                elif t in enums:
+                    wf.append([W_U8 if enums[t] == "u8" else W_U16, 0, ""])
+                else:
+                    raise GenError("%s: write_token of field type %r" % (name, t))
+            else:
+                raise GenError("%s: write_token(%s)" % (name, arg))
+    # ---- reader
+    scans = [m for m in re.finditer(r"pub fn scan\s*<", src) if enclosing_impl(src, m.start()) == name]
+    if len(scans) != 1:
+        raise GenError("scan of %s: %d candidates" % (name, len(scans)))
+    i = src.find("->", scans[0].end())
+    body = block_from(src, src.find("{", i))
+    rk = []
+    pat = r"(\w+)::scan\(scanner\)|scanner\.(scan_name|scan_charstr|scan_octets|scan_charstr_entry)\(\)|scanner\.convert_entry\(base(16|64)::SymbolConverter::new\(\)\)"
+    for m in re.finditer(pat, body):
+        if m.group(1):
+            t = m.group(1)
+            k = {"u8": R_U8, "u16": R_U16, "u32": R_U32, "Serial": R_U32, "Ttl": R_U32, "Timestamp": R_TIMESTAMP, "Rtype": R_RTYPE}.get(t)
+            if k is None and t in enums:
+                k = R_ENUM8
+            if k is None:
+                raise GenError("%s: %s::scan" % (name, t))
+            rk.append(k)
+        elif m.group(2):
+            rk.append({"scan_name": R_NAME, "scan_charstr": R_CSTR, "scan_octets": R_OCTETS, "scan_charstr_entry": R_CSTRS}[m.group(2)])
+        else:
+            rk.append(R_B16REST if m.group(3) == "16" else R_B64REST)
+    if "scanner" in re.sub(pat, "", body).replace("scanner: &mut S", ""):
+        raise GenError("%s: scan uses the scanner in a way the extractor does not know" % name)
+    code = codes.get(name.upper())
+    if code is None:
+        raise GenError("no rtype code for %s" % name)
+    return code, block, wf, rk
+
+def name_types(codes):
+    """record types declared through the name_type_* macros: one name"""
+    mac = strip_comments(read("src/rdata/macros.rs"))
+    base = mac[mac.index("macro_rules! name_type_base"):mac.index("macro_rules! name_type_well_known")]
+    one(r"p\.write_token\(self\.\$field\.fmt_with_dot\(\)\)", base, "name type ZonefileFmt")
+    one(r"pub fn scan<[^{]*\{\s*scanner\.scan_name\(\)\.map\(Self::new\)", base, "name type scan")
+    out = []
+    for path in ("src/rdata/rfc1035/name.rs", "src/rdata/dname.rs"):
+        src = strip_comments(read(path))
+        for m in re.finditer(r"name_type_\w+!\s*\{\s*(?:#\[[^\]]*\]\s*)*\(\s*(\w+)\s*,\s*(\w+)\s*,", src):
+            code = codes.get(m.group(2))
+            if code is None:
+                raise GenError("no rtype code for %s" % m.group(2))
+            out.append((code, False, [[W_NAME, 0, ""]], [R_NAME]))
+    if len(out) != 9:
+        raise GenError("expected 9 single-name record types, found %d" % len(out))
+    return out
+
+def schemas(codes):
+    enums = decimal_enums()
+    ser = strip_comments(read("src/base/serial.rs"))
+    one(r"pub fn scan<S: Scanner>\(scanner: &mut S\)[^{]*\{\s*u32::scan\(scanner\)\.map\(Into::into\)", ser, "Serial::scan")
+    one(r'impl fmt::Display for Serial\s*\{\s*fn fmt[^{]*\{\s*write!\(f,\s*"\{\}",\s*self\.0\)', ser, "Serial Display")
+    ds = strip_comments(read("src/rdata/dnssec.rs"))
+    one(r"impl ZonefileFmt for Timestamp\s*\{\s*fn fmt[^{]*\{\s*p\.write_token\(self\.0\)", ds, "Timestamp ZonefileFmt")
+    one(r"if\s+token\.len\(\)\s*<=\s*10\s*\{\s*let\s+time\s*=\s*token\.parse::<u32>\(\)", ds, "Timestamp scan decimal form")
+    all_ = name_types(codes) + [type_schema(n, p, enums, codes) for n, p in REGULAR]
+    all_.sort()
+    def fld(f):
+        return "(%d%%N, (%d%%N, %s))" % (f[0], f[1], coq_str(f[2]))
+    return "[" + ";\n  ".join("(%d%%N, (%s, ([%s], %s)))" % (c, "true" if b else "false", "; ".join(fld(f) for f in wf), nlist(rk)) for c, b, wf, rk in all_) + "]"
+
 def build():
     defs = []
     # ---- Display for Label
@@ -197,6 +388,8 @@ def build():
     one(r'int_enum_str_with_prefix!\(Class,\s*"CLASS",\s*b"CLASS",\s*u16', strip_comments(read("src/base/iana/class.rs")), "Class prefix")
     def table(xs):
         return "[" + "; ".join("(%d%%N, %s)" % (v, coq_str(s)) for v, s in xs) + "]"
+    codes = dict((m, v) for v, m in rts)
+    defs.append(("type_schemas", "list (N * (bool * (list (N * (N * list N)) * list N)))", schemas(codes)))
     defs += [("rtype_mnemonics", "list (N * list N)", table(rts)), ("class_mnemonics", "list (N * list N)", table(cls)),
              ("rtype_prefix", "list N", coq_str("TYPE")), ("class_prefix", "list N", coq_str("CLASS"))]
     return defs
